@@ -50,6 +50,13 @@ theorem geared (ηgb : Rat → Rat) (rated P : Rat) (hP : 0 ≤ P) :
   refine ⟨div_mul_cancel₀ _ hpos.ne', ?_⟩
   rw [le_div_iff₀ hpos]; nlinarith
 
+/-- As found (D35): a 4000 kW gearbox (90 % efficient up to a quarter of its load, 98 % above) behind a 2000 kW engine
+delivering 1000 kW was read at load 1/2 instead of 1/4: the engine power came out 8 % too low. -/
+theorem geared_legacy_wrong_load :
+    let ηgb : Rat → Rat := fun x => if x ≤ 1 / 4 then 9 / 10 else 49 / 50
+    gearedEnginePower ηgb 4000 1000 = 1000 / (9 / 10) ∧ gearedEnginePowerLegacy ηgb 2000 1000 = 1000 / (49 / 50) := by
+  decide +kernel
+
 /-- Fuel cell: fuel mass = (delivered power / efficiency) / lower heating value. -/
 theorem fuel_cell (η inv : Rat → Rat) (rated lhv P : Rat) (hP : 0 ≤ P) :
     fuelCellFuel η inv rated lhv P = P / effHat η (rabs P / rated) / lhv / 1000000 := by
